@@ -35,11 +35,15 @@ def judge(rep, behaviours, trace, prop, names, trace_cfg='Trace_Replication.cfg'
     """names: the P-level checks that belong to this property"""
     res = core.tlc_trace('Trace_Replication.tla', trace_cfg, trace, timeout=1800)
     by_id = {b['id']: b for b in behaviours}
-    bad, drifting = {}, []
+    bad, drifting, drift_lines = {}, [], {}
+    # drift on variables that are part of the replicated state (not internal bookkeeping)
+    material = {'log', 'hw', 'ec', 'role', 'up', 'meta', 'acks', 'guard', 'skipped'}
     for f in res['fails']:
         kind, tid, line, action, name, taint = f
         if kind == 'I':
             rep.drift({'behaviour': tid, 'line': line, 'action': action, 'what': name})
+            if name in material:
+                drift_lines.setdefault(tid, []).append(line)
             if by_id[tid] not in drifting:
                 drifting.append(by_id[tid])
             continue
@@ -51,8 +55,12 @@ def judge(rep, behaviours, trace, prop, names, trace_cfg='Trace_Replication.cfg'
     for tid, fl in bad.items():
         fl.sort()
         line, action, name, taint = fl[0]
-        sig = '%s|%s|taint=%s' % (prop, name, taint.rstrip(','))
-        rep.classify(sig, 'first failing step: line %d action %s check %s (known-defect tags so far: %s)' % (line, action, name, taint),
+        # a known finding is only credited when the real code followed the specified (code-faithful)
+        # actions exactly up to the failing step; otherwise the history is not the recorded one
+        conform = 'yes' if not [x for x in drift_lines.get(tid, []) if x <= line] else 'no'
+        sig = '%s|%s|taint=%s|conform=%s' % (prop, name, taint.rstrip(','), conform)
+        rep.classify(sig, 'first failing step: line %d action %s check %s (known-defect tags so far: %s; real code '
+                          'conformed to the specification up to this step: %s)' % (line, action, name, taint, conform),
                      {'behaviours': [by_id[tid]]})
     return res
 
